@@ -91,6 +91,11 @@ def machine_factory(ctx):
             self.step("rej_prefix", seed=seed, n_batches=n_batches, n_prior=n_prior)
 
         @precondition(lambda self: self.ready)
+        @rule(seed=st.integers(0, 2**31), init_batch=st.integers(1, 12))
+        def iter_rounds(self, seed, init_batch):
+            self.step("iter_rounds", seed=seed, init_batch=init_batch)
+
+        @precondition(lambda self: self.ready)
         @rule(factor=st.sampled_from([0.1, 3.0, 25.0]), path=st.sampled_from(["mem", "cache"]))
         def other_data(self, factor, path):
             self.step("other_data", factor=factor, path=path)
@@ -262,6 +267,36 @@ def machine_factory(ctx):
                                 "whether the library is a file or an object")
             self.paths_used.add(("prefix", min(n_batches, 3)))
             self.kinds.append("rej_prefix")
+
+        def do_iter_rounds(self, seed, init_batch):
+            """iterative sampling that cannot be satisfied by the library (as many samples requested as there are rows): a
+            small first round, then everything that is left.  When the in-memory and the cache-file implementation go
+            through the same rounds they draw the same uniforms, so they must accept the same prior samples."""
+            from vt.recgen import RecordingGenerator
+
+            if self.n < 3:
+                return
+            k = max(1, min(init_batch, self.n - 2))
+            res = {}
+            for path, src in (("mem", self.lib), ("cache", self.lib), ("file", self.libfile)):
+                rg = RecordingGenerator(np.random.PCG64(seed))
+                joker = tj.TheJoker(self.prior, rng=rg)
+                try:
+                    out = joker.iterative_rejection_sample(self.data, src, n_requested_samples=self.n, init_batch_size=k,
+                                                           in_memory=(path == "mem"))
+                    val = np.asarray(out["P"].value).tobytes()
+                except Exception as e_:
+                    val = "raised " + type(e_).__name__
+                res[path] = ([int(np.size(c_["out"])) for c_ in rg.calls("uniform")], val)
+            if res["cache"] != res["file"]:
+                raise Violation("equal seeds: iterative sampling from a library object (temporary cache) and from the same library "
+                                "as a file differ", rounds_object=res["cache"][0], rounds_file=res["file"][0])
+            if res["mem"][0] == res["file"][0] and len(res["mem"][0]) >= 2 and res["mem"][1] != res["file"][1]:
+                raise Violation("equal seeds, equal rounds %s: the in-memory and the cache-file iterative sampler accept different "
+                                "prior samples" % (res["mem"][0],), in_memory=repr(res["mem"][1])[:80], cache_file=repr(res["file"][1])[:80])
+            if res["mem"][0] == res["file"][0] and len(res["mem"][0]) >= 2:
+                self.paths_used.add(("iter_rounds", 2))
+            self.kinds.append("iter_rounds" + (":comparable" if res["mem"][0] == res["file"][0] and len(res["mem"][0]) >= 2 else ""))
 
         def do_other_data(self, factor, path):
             """the same TheJoker evaluates another data set (same epochs and velocities, other uncertainties)"""
